@@ -2780,7 +2780,7 @@ def _alias_value_ok(e) -> bool:
         return isinstance(e.value, int) and not isinstance(e.value, bool)
     if _simple(e):
         return True
-    if isinstance(e, ast.Call) and isinstance(e.func, ast.Name) and e.func.id == "len" and len(e.args) == 1 and not e.keywords and _simple(e.args[0]):
+    if isinstance(e, ast.Call) and isinstance(e.func, ast.Name) and e.func.id in ("len", "type") and len(e.args) == 1 and not e.keywords and _simple(e.args[0]):
         return True
     if isinstance(e, ast.BinOp) and isinstance(e.op, (ast.Add, ast.Sub)):
         return _alias_value_ok(e.left) and _alias_value_ok(e.right)
@@ -2825,7 +2825,7 @@ def propagate_local_aliases(model, changed: set) -> list:
                     if isinstance(st, ast.Assign) and len(st.targets) == 1 and isinstance(st.targets[0], ast.Name) and stores.get(st.targets[0].id) == 1 \
                             and st.targets[0].id not in params and _alias_value_ok(st.value) and not isinstance(st.value, ast.Constant):
                         nm = st.targets[0].id
-                        roots = {y.id for y in ast.walk(st.value) if isinstance(y, ast.Name)} - {"len"}
+                        roots = {y.id for y in ast.walk(st.value) if isinstance(y, ast.Name)} - {"len", "type"}
                         chain_attrs = {y.attr for y in ast.walk(st.value) if isinstance(y, ast.Attribute)}
                         after = sum(1 for later in stmts[k + 1:] for y in ast.walk(later) if isinstance(y, ast.Name) and y.id == nm and isinstance(y.ctx, ast.Load))
                         in_closure = any(isinstance(fn_, (ast.FunctionDef, ast.AsyncFunctionDef, ast.Lambda)) and fn_ is not f.node
@@ -2840,6 +2840,17 @@ def propagate_local_aliases(model, changed: set) -> list:
                             isinstance(fn_, (ast.FunctionDef, ast.AsyncFunctionDef, ast.Lambda)) and fn_ is not f.node and any(
                                 isinstance(y, ast.Name) and isinstance(y.ctx, (ast.Store, ast.Del)) and y.id in roots for y in ast.walk(fn_)) for fn_ in ast.walk(f.node))
                         roots_ok = all(stores.get(r_, 0) == 0 for r_ in roots) or settled
+                        if not roots_ok and not in_closure:
+                            # a root that is only ever bound as the target of a loop whose body contains this statement: stable within the iteration
+                            def _loop_bound(r_):
+                                ss = [y for y in ast.walk(f.node) if isinstance(y, ast.Name) and y.id == r_ and isinstance(y.ctx, (ast.Store, ast.Del))]
+                                for y in ss:
+                                    lps = [lp for lp in ast.walk(f.node) if isinstance(lp, ast.For) and any(z is y for z in ast.walk(lp.target))
+                                           and any(z is st for b_ in lp.body for z in ast.walk(b_))]
+                                    if not lps:
+                                        return False
+                                return bool(ss)
+                            roots_ok = all(stores.get(r_, 0) == 0 or _loop_bound(r_) for r_ in roots)
                         if isinstance(st.value, ast.Name):
                             roots_ok = False  # a second name for another local / parameter is how aliasing defects look: kept as written
                         if in_closure:
@@ -4242,4 +4253,118 @@ def erase_namedtuple_interfaces(model, module_names: dict) -> list:
                     x.annotation = ast.Name(id="object", ctx=ast.Load())
             ast.fix_missing_locations(mod.tree)
         done.append(f"{modshort}.{cname}")
+    return done
+
+
+# --------------------------------------------------------------------------- walrus
+def desugar_walrus(model, changed: set) -> list:
+    """`(x := E)` in functions whose source differs from the pinned tree (the pinned tree has no walrus):
+      * E a cheap pure expression (a name, an attribute chain, `type(n)`, `len(n)`) whose names are not re-bound (except by `n = x` itself),
+        x bound nowhere else: the walrus and every read of x become E (a cached lookup undone);
+      * otherwise, when the walrus is what an `if` test evaluates first: `x = E` in front of the `if`, `x` in the test."""
+    done = []
+
+    def pure(e):
+        if isinstance(e, (ast.Name, ast.Constant)):
+            return True
+        if isinstance(e, ast.Attribute):
+            return pure(e.value)
+        if isinstance(e, ast.Call) and isinstance(e.func, ast.Name) and e.func.id in ("type", "len") and len(e.args) == 1 and not e.keywords and isinstance(e.args[0], ast.Name):
+            return True
+        return False
+
+    for q in sorted(changed):
+        f = model.functions.get(q)
+        if f is None or f.module.short.startswith("_typeguard") or not isinstance(f.node, (ast.FunctionDef, ast.AsyncFunctionDef)):
+            continue
+        for _ in range(8):
+            walr = [n for n in _walk_own(f.node) if isinstance(n, ast.NamedExpr) and isinstance(n.target, ast.Name)]
+            if not walr:
+                break
+            progressed = False
+            for w in walr:
+                x = w.target.id
+                stores = [n for n in ast.walk(f.node) if isinstance(n, ast.Name) and n.id == x and isinstance(n.ctx, (ast.Store, ast.Del))]
+                nested = any(isinstance(s_, (ast.FunctionDef, ast.AsyncFunctionDef, ast.Lambda, ast.ListComp, ast.SetComp, ast.DictComp, ast.GeneratorExp)) and s_ is not f.node
+                             and any(isinstance(y, ast.Name) and y.id == x for y in ast.walk(s_)) for s_ in ast.walk(f.node))
+                if len(stores) != 1 or x in f.params or nested:
+                    continue
+                if pure(w.value):
+                    free = {y.id for y in ast.walk(w.value) if isinstance(y, ast.Name)} - {"type", "len"}
+                    rebinding_ok = True
+                    for st in ast.walk(f.node):
+                        if isinstance(st, ast.Name) and st.id in free and isinstance(st.ctx, (ast.Store, ast.Del)):
+                            # allowed only as the target of `n = x`
+                            par = [a for a in _walk_own(f.node) if isinstance(a, ast.Assign) and any(t is st for t in a.targets)]
+                            if par and isinstance(par[0].value, ast.Name) and par[0].value.id == x and len(par[0].targets) == 1:
+                                continue
+                            # ... or as the target of a loop that encloses the walrus and every read of x (stable within one iteration)
+                            loops_ = [lp for lp in _walk_own(f.node) if isinstance(lp, ast.For) and any(y is st for y in ast.walk(lp.target))]
+                            uses_ = [y for y in ast.walk(f.node) if isinstance(y, ast.Name) and y.id == x]
+                            if loops_ and all(any(y is u for b_ in loops_[0].body for y in ast.walk(b_)) for u in uses_):
+                                continue
+                            rebinding_ok = False
+                    if rebinding_ok and not any(y in f.params and False for y in free):
+                        class _R(ast.NodeTransformer):
+                            def visit_NamedExpr(self, n):
+                                if n is w:
+                                    return self.generic_visit(n).value if False else n.value
+                                return self.generic_visit(n)
+
+                            def visit_Name(self, n):
+                                if n.id == x and isinstance(n.ctx, ast.Load):
+                                    return ast.copy_location(copy.deepcopy(w.value), n)
+                                return n
+
+                        _R().visit(f.node)
+                        ast.fix_missing_locations(f.node)
+                        done.append((q, x, "alias"))
+                        progressed = True
+                        break
+                # hoist in front of the `if` whose test evaluates it first
+                def head(e):
+                    while True:
+                        if e is w:
+                            return True
+                        if isinstance(e, ast.BoolOp):
+                            e = e.values[0]
+                        elif isinstance(e, ast.UnaryOp):
+                            e = e.operand
+                        elif isinstance(e, ast.Compare):
+                            e = e.left
+                        else:
+                            return False
+
+                hoisted = False
+
+                def rec(stmts):
+                    nonlocal hoisted
+                    for i, st in enumerate(stmts):
+                        if hoisted:
+                            return
+                        if isinstance(st, ast.If) and head(st.test):
+                            class _S(ast.NodeTransformer):
+                                def visit_NamedExpr(self, n):
+                                    return ast.copy_location(ast.Name(id=x, ctx=ast.Load()), n) if n is w else self.generic_visit(n)
+                            st.test = _S().visit(st.test)
+                            stmts.insert(i, ast.copy_location(ast.Assign(targets=[ast.Name(id=x, ctx=ast.Store())], value=w.value, lineno=st.lineno), st))
+                            hoisted = True
+                            return
+                        if isinstance(st, (ast.FunctionDef, ast.AsyncFunctionDef, ast.ClassDef)):
+                            continue
+                        for fld in ("body", "orelse", "finalbody"):
+                            sub = getattr(st, fld, None)
+                            if isinstance(sub, list) and sub and isinstance(sub[0], ast.stmt):
+                                rec(sub)
+                        for hd in getattr(st, "handlers", []) or []:
+                            rec(hd.body)
+
+                rec(f.node.body)
+                if hoisted:
+                    ast.fix_missing_locations(f.node)
+                    done.append((q, x, "hoisted"))
+                    progressed = True
+                    break
+            if not progressed:
+                break
     return done
